@@ -423,6 +423,38 @@ func genKinds(emit func(spec)) {
 	}
 }
 
+// deep names and names whose ancestors exist (the tree of the Lean examples `deepCfg`, plus a grandparent with a file and
+// a type set two levels up): every context loader, the lookups in both orders
+var deepFiles = []file{
+	{segs: []string{"env", "types", "ns", "a.pp"}, body: body{kind: "alias", name: "Ns::A"}},
+	{segs: []string{"env", "types", "ns", "bad.pp"}, body: body{kind: "malformed", line: 4}},
+	{segs: []string{"env", "types", "top.pp"}, body: body{kind: "object", name: "Top"}},
+	{segs: []string{"modules", "mymod", "types", "sub", "deep", "Leaf.pp"}, body: body{kind: "object", name: "Mymod::Sub::Deep::Leaf"}},
+	{segs: []string{"modules", "mymod", "types", "sub", "deep", "bad.pp"}, body: body{kind: "malformed", line: 3}},
+	{segs: []string{"modules", "mymod", "types", "sub.pp"}, body: body{kind: "alias", name: "Mymod::Sub"}},
+	{segs: []string{"modules", "mymod", "types", "set.pp"}, body: body{kind: "typeset", name: "Mymod::Set", types: []string{"Ta", "Tb"}}},
+}
+
+var deepNames = []string{"Ns::A::B", "Ns::A::B", "Ns::A", "Ns::A::B::C::D", "Ns::Bad::X", "Ns::Bad", "Top::X::Y", "Top",
+	"MYMOD::sub::Deep::LEAF", "Mymod::Sub", "Mymod::Sub::Deep", "Mymod::Sub::Deep::Leaf::X", "Mymod::Sub::Deep::Bad",
+	"Mymod::Sub::Deep::Bad::Y", "Mymod::Set::Ta::X", "Mymod::Set::Tb", "Mymod::Set", "Mymod::Set::Nope::Z"}
+
+func genDeep(emit func(spec)) {
+	var ls, rev []lookup
+	for _, n := range deepNames {
+		ls = append(ls, lookup{op: "load", name: n})
+		rev = append([]lookup{{op: "load", name: n}}, rev...)
+	}
+	for _, via := range []string{"g", "d", "e", "m:mymod", "f:mymod"} {
+		for _, lk := range [][]lookup{ls, rev} {
+			emit(spec{mods: []string{"other", "mymod"}, files: deepFiles, via: via, lookups: lk})
+			// without the grandparent / parent files: the same names over a sparser tree
+			emit(spec{mods: []string{"other", "mymod"}, files: []file{deepFiles[0], deepFiles[3], deepFiles[6]}, via: via, lookups: lk})
+			emit(spec{mods: []string{"other", "mymod"}, files: []file{deepFiles[1], deepFiles[4], deepFiles[5]}, via: via, lookups: lk})
+		}
+	}
+}
+
 func gen(g *core.G) {
 	emit := func(s spec) { g.Emit(s.String()) }
 	// two lookup lists: the fixed one and its reverse (every pair of names is asked in both orders)
@@ -445,6 +477,7 @@ func gen(g *core.G) {
 		}
 	}
 	genKinds(emit)
+	genDeep(emit)
 	trees, lookups := 60, 40
 	if g.Thorough() {
 		trees, lookups = 2000, 100
